@@ -29,10 +29,11 @@ def _oracle_batch(args):
     out = []
     for d in batch:
         try:
-            why = vmcheck.oracle(d, want_value=want_value)
+            # a call that does not return is reported by the correspondence (TIMEOUT), not waited for here
+            why = vmcheck.timed(vmcheck.oracle, d, want_value=want_value, default=None)
         except RecursionError:
             why = None
-        out.append((why, classify(d) if why else []))
+        out.append((why, (vmcheck.timed(classify, d, default=[]) if why else [])))
     return out
 
 
